@@ -41,28 +41,92 @@ type Cx struct {
 	Variant string
 	V, U    [MaxPos + 1]string // V[k]: value at position k; U[k]: second operand (eq/ord/hash/monoid)
 
+	// Every case runs its call site twice ("generations" 1 and 2, one Cx each), for the same
+	// type arguments but with different values, different recording functions (rendering
+	// f(..) / g(..)) and different component instances: the positions in Bias carry, in
+	// generation 2, an instance that behaves differently (Ord reversed, Eq/Hash trivial,
+	// Monoid/Clone differently tagged). Both are constructed before either is observed.
+	Gen      int
+	Y        [MaxPos + 1]string // Y[k]: the alternative argument of position k used by forked applications
+	Bias     [MaxPos + 1]bool
+	Other    *Cx
+	ForkSeed int
+
 	Family, Member string
 	N              int
 
-	Calls    [][]string
-	wantVec  []string
-	haveWant bool
-	seen     [MaxPos + 1]bool // component instance k was consulted by a unary observation (Hash / Clone)
-	routeErr string           // first mis-routed component observation
-	NComp    int64            // component observations so far
-	obsLeft  int64            // logical budget of component observations left for the current observation
-	Tasks    []func()
-	Checks   []string
-	Failed   bool
+	Calls     [][]string
+	wantVec   []string
+	haveWant  bool
+	seen      [MaxPos + 1]bool // component instance k was consulted by a unary observation (Hash / Clone)
+	routeErr  string           // first mis-routed component observation
+	NComp     int64            // component observations so far
+	obsLeft   int64            // logical budget of component observations left for the current observation
+	Tasks     []func()
+	Checks    []string
+	Failed    bool
+	pending   []func() // observations registered by the site (Obs); run, possibly repeatedly, by Observe
+	foreign   string   // a function / component instance that was NOT given to this construction was consulted
+	forks     int
+	lineStart int
 }
 
-// Cur is the case being executed (single goroutine); used by the future spawn hook.
+// Cur is the generation whose construction or observation is being executed (single
+// goroutine); used by the future spawn hook and by the recorders: a recording function or
+// component instance that belongs to another Cx and is invoked while Cur runs was not given to
+// the construction under observation (instance identity).
 var Cur *Cx
+
+// Run executes fn (the site's construction, or its observations) as generation c: tasks the
+// default executors schedule meanwhile belong to c and are drained before Run returns.
+func (c *Cx) Run(fn func()) {
+	prev := Cur
+	Cur = c
+	defer func() { Cur = prev }()
+	fn()
+	c.Drain()
+	c.flushForeign()
+}
+
+// Obs registers an observation of what the site has constructed; it runs after BOTH
+// generations have been constructed, in an order chosen by the case, possibly more than once.
+func (c *Cx) Obs(f func()) { c.pending = append(c.pending, f) }
+
+// Observe runs the registered observations.
+func (c *Cx) Observe() {
+	for _, f := range c.pending {
+		c.lineStart = len(c.Calls) // the straight-line application comes first in every observation
+		f()
+	}
+}
+
+func (c *Cx) who() string {
+	if Cur != nil && Cur.Other == c {
+		return fmt.Sprintf("the OTHER construction of this case (generation %d)", c.Gen)
+	}
+	return "a construction of an earlier case"
+}
+
+func (c *Cx) noteForeign(s string) {
+	if c.foreign == "" {
+		c.foreign = s
+	}
+}
+
+func (c *Cx) flushForeign() {
+	if c.foreign != "" {
+		c.Fail("instance-identity", c.foreign)
+		c.foreign = ""
+	}
+}
 
 // Enter is the first statement of every generated call site: the site registers itself.
 func (c *Cx) Enter(family, member string, n int) {
 	c.Family, c.Member, c.N = family, member, n
 	c.obsLeft = ObsBudget
+	if c.Gen != 1 {
+		return
+	}
 	c.W.Hit(family)
 	c.W.Add("pair."+member, 1)
 	c.W.Add("sites."+c.Variant, 1)
@@ -79,12 +143,19 @@ func (c *Cx) Witness() any {
 	if n > MaxPos {
 		n = MaxPos
 	}
-	return map[string]any{"member": c.Member, "instantiation": c.Variant, "values": c.V[1 : n+1], "second_operand": c.U[1 : n+1]}
+	var bias []int
+	for k := 1; k <= n; k++ {
+		if c.Bias[k] {
+			bias = append(bias, k)
+		}
+	}
+	return map[string]any{"member": c.Member, "instantiation": c.Variant, "generation": c.Gen, "values": c.V[1 : n+1], "second_operand": c.U[1 : n+1],
+		"fork_alternatives": c.Y[1 : n+1], "positions_with_a_different_component_instance": bias}
 }
 
 func (c *Cx) Fail(what, detail string) {
 	c.Failed = true
-	c.W.Violation(c.Idx, c.Member+"/"+what, fmt.Sprintf("%s [%s instantiation]: %s", c.Member, c.Variant, detail), c.Witness())
+	c.W.Violation(c.Idx, c.Member+"/"+what, fmt.Sprintf("%s [%s instantiation, construction %d of 2]: %s", c.Member, c.Variant, c.Gen, detail), c.Witness())
 }
 
 func (c *Cx) note(s string) {
@@ -93,13 +164,22 @@ func (c *Cx) note(s string) {
 	}
 }
 
-func fmtCall(args []string) string { return "f(" + strings.Join(args, "|") + ")" }
+// fmtCall renders a call of the recording function of generation gen: f(..) / g(..).
+func fmtCall(gen int, args []string) string {
+	if gen == 2 {
+		return "g(" + strings.Join(args, "|") + ")"
+	}
+	return "f(" + strings.Join(args, "|") + ")"
+}
 
 // Call is the body of every recording function argument f: it records the argument vector
 // it received and returns an injective rendering of it.
 func (c *Cx) Call(args ...string) Res {
+	if Cur != nil && Cur != c {
+		Cur.noteForeign(fmt.Sprintf("while this construction was observed, the function argument given to %s was invoked (with %v)", c.who(), args))
+	}
 	c.Calls = append(c.Calls, append([]string(nil), args...))
-	return Res(fmtCall(args))
+	return Res(fmtCall(c.Gen, args))
 }
 
 // Want declares the argument vector f must receive (written out by the generator in
@@ -107,7 +187,7 @@ func (c *Cx) Call(args ...string) Res {
 func (c *Cx) Want(args ...string) string {
 	c.wantVec = append([]string(nil), args...)
 	c.haveWant = true
-	return fmtCall(args)
+	return fmtCall(c.Gen, args)
 }
 
 func sameVec(a, b []string) bool {
@@ -127,11 +207,11 @@ func (c *Cx) Called() {
 	if !c.haveWant {
 		return
 	}
-	if len(c.Calls) == 0 {
+	if len(c.Calls) <= c.lineStart {
 		c.Fail("f-not-called", fmt.Sprintf("the function argument was never invoked; expected a call with %v", c.wantVec))
 		return
 	}
-	for _, cl := range c.Calls {
+	for _, cl := range c.Calls[c.lineStart:] {
 		if !sameVec(cl, c.wantVec) {
 			c.Fail("f-arguments", fmt.Sprintf("the function argument received %v, defining equation passes %v", cl, c.wantVec))
 			return
@@ -178,8 +258,142 @@ func Eqv[A Val](c *Cx, what string, got, want A) {
 // Pair builds a pair by struct literal (input of product.FlattenN).
 func Pair[A, B any](a A, b B) fp.Tuple2[A, B] { return fp.Tuple2[A, B]{I1: a, I2: b} }
 
-// Step is the body of the k-th function of a composition / merge.
-func (c *Cx) Step(k int, x string) string { return fmt.Sprintf("f%d(%s)", k, x) }
+// Step is the body of the k-th function of a composition / merge (f<k> in generation 1, g<k>
+// in generation 2).
+func (c *Cx) Step(k int, x string) string {
+	if c.Gen == 2 {
+		return fmt.Sprintf("g%d(%s)", k, x)
+	}
+	return fmt.Sprintf("f%d(%s)", k, x)
+}
+
+// Nested is the defining expression of a composition of n steps: step n ( ... step 1 (x)).
+func (c *Cx) Nested(n int, x string) string {
+	for k := 1; k <= n; k++ {
+		x = c.Step(k, x)
+	}
+	return x
+}
+
+// ---- forked partial applications ----------------------------------------------------------
+
+// Pos / PosFlip / PosSlip: the original argument position of the i-th application of a
+// curried function: identity, a2..an a1 (curried.FlipN), an a1..a(n-1) (curried.SlipLN).
+func Pos(n int) []int {
+	out := make([]int, n)
+	for i := range out {
+		out[i] = i + 1
+	}
+	return out
+}
+
+func PosFlip(n int) []int {
+	out := make([]int, 0, n)
+	for k := 2; k <= n; k++ {
+		out = append(out, k)
+	}
+	return append(out, 1)
+}
+
+func PosSlip(n int) []int {
+	out := []int{n}
+	for k := 1; k < n; k++ {
+		out = append(out, k)
+	}
+	return out
+}
+
+// ForkVec is the argument vector (original order) of a continuation that was forked at
+// application level `level` (1-based; 0 = not forked): the applications before that level
+// carried V, those from that level on carry the alternatives Y.
+func (c *Cx) ForkVec(pos []int, level int) []string {
+	out := make([]string, len(pos))
+	for k := range out {
+		out[k] = c.V[k+1]
+	}
+	if level >= 1 {
+		for i := level - 1; i < len(pos); i++ {
+			out[pos[i]-1] = c.Y[pos[i]]
+		}
+	}
+	return out
+}
+
+// Mix is the argument vector with the alternatives Y at the listed positions and V elsewhere.
+func (c *Cx) Mix(n int, alt ...int) []string {
+	out := append([]string(nil), c.V[1:n+1]...)
+	for _, k := range alt {
+		out[k-1] = c.Y[k]
+	}
+	return out
+}
+
+func (c *Cx) Mark() int { return len(c.Calls) }
+
+func ShowRes(r Res) string   { return string(r) }
+func ShowRes2(r Res2) string { return string(r) }
+
+func WrapSome(s string) string    { return "Some(" + s + ")" }
+func WrapSuccess(s string) string { return "Success(" + s + ")" }
+func WrapH(s string) string       { return "h(" + s + ")" }
+
+// WrapUnit is for members whose result carries nothing (unit.FuncN): only the calls count.
+func WrapUnit(string) string { return "" }
+
+// Fork judges two continuations that were derived from ONE partial application (or two
+// uses of one constructed function): both exist before either is finished; fin1 / fin2 finish
+// them and render the result; they are finished in one of the two orders (alternating). Each
+// must equal the defining equation for ITS OWN argument vector, and the function argument
+// must have received exactly these two vectors since the mark n0.
+func (c *Cx) Fork(n0, level int, fin1, fin2 func() string, vec1, vec2 []string, wrap func(string) string) {
+	c.forks++
+	secondFirst := (c.ForkSeed+c.forks)%2 == 1
+	var r1, r2 string
+	order := "the first was finished before the second"
+	if secondFirst {
+		order = "the second was finished before the first"
+		r2 = fin2()
+		r1 = fin1()
+		c.W.Add("fork.order.second_finished_first", 1)
+	} else {
+		r1 = fin1()
+		r2 = fin2()
+		c.W.Add("fork.order.first_finished_first", 1)
+	}
+	c.W.Add("fork."+c.Family, 1)
+	if level >= 2 {
+		c.W.Add("fork.below_first_level", 1)
+	}
+	c.W.Max("fork.max_level", int64(level))
+	w1, w2 := fmtCall(c.Gen, vec1), fmtCall(c.Gen, vec2)
+	if wrap != nil {
+		w1, w2 = wrap(w1), wrap(w2)
+	}
+	where := fmt.Sprintf("two continuations were derived from one partial application at level %d (0 = one constructed function used twice) with the argument vectors %v and %v, both before either was finished; %s", level, vec1, vec2, order)
+	if r1 != w1 {
+		c.Fail("forked-partial-application", fmt.Sprintf("%s: the first gave %q, the defining equation for its own arguments gives %q", where, r1, w1))
+		return
+	}
+	if r2 != w2 {
+		c.Fail("forked-partial-application", fmt.Sprintf("%s: the second gave %q, the defining equation for its own arguments gives %q", where, r2, w2))
+		return
+	}
+	saw1, saw2 := false, false
+	for _, cl := range c.Calls[n0:] {
+		switch {
+		case sameVec(cl, vec1):
+			saw1 = true
+		case sameVec(cl, vec2):
+			saw2 = true
+		default:
+			c.Fail("forked-partial-application", fmt.Sprintf("%s: the function argument received %v", where, cl))
+			return
+		}
+	}
+	if !saw1 || !saw2 {
+		c.Fail("forked-partial-application", fmt.Sprintf("%s: the function argument was not invoked with both vectors (calls: %v)", where, c.Calls[n0:]))
+	}
+}
 
 // Prev checks the value a Chain builder hands to the callback of step k (the previous argument).
 func (c *Cx) Prev(k int, got, want string) {
@@ -221,6 +435,10 @@ func (c *Cx) obs(f func()) (ok bool) {
 // of position k (of either operand). The check is done on the spot (O(1) per observation:
 // ord.TupleN consults its components exponentially often for some operands).
 func (c *Cx) comp2(k int, x, y string) {
+	c.foreignComp(k)
+	if k >= 1 && k <= MaxPos {
+		c.seen[k] = true
+	}
 	c.NComp++
 	if c.obsLeft--; c.obsLeft < 0 {
 		panic(obsAbort{})
@@ -230,7 +448,15 @@ func (c *Cx) comp2(k int, x, y string) {
 	}
 }
 
+// foreignComp: a component instance of c is consulted while another construction is observed.
+func (c *Cx) foreignComp(k int) {
+	if Cur != nil && Cur != c {
+		Cur.noteForeign(fmt.Sprintf("while the instance built by this construction was observed, the component instance given at position %d to %s was consulted: the instance does not consult the components it was given", k, c.who()))
+	}
+}
+
 func (c *Cx) comp1(k int, x string) {
+	c.foreignComp(k)
 	c.NComp++
 	if k >= 1 && k <= MaxPos {
 		c.seen[k] = true
@@ -240,19 +466,28 @@ func (c *Cx) comp1(k int, x string) {
 	}
 }
 
+// biased: generation 2 carries, at the positions in Bias, a component instance that behaves
+// differently from the one generation 1 has at that position.
+func (c *Cx) biased(k int) bool { return c.Gen == 2 && k >= 1 && k <= MaxPos && c.Bias[k] }
+
 type RecEq[A Val] struct {
 	C *Cx
 	K int
 }
 
+// Eqv: string equality; the biased instance is the trivial equivalence (everything equal).
 func (r RecEq[A]) Eqv(x, y A) bool {
 	r.C.comp2(r.K, string(x), string(y))
-	return string(x) == string(y)
+	return r.C.biased(r.K) || string(x) == string(y)
 }
 
+// RecOrd: string order; the biased instance is the reversed order.
 func RecOrd[A Val](c *Cx, k int) fp.Ord[A] {
 	return fp.LessFunc[A](func(x, y A) bool {
 		c.comp2(k, string(x), string(y))
+		if c.biased(k) {
+			return string(x) > string(y)
+		}
 		return string(x) < string(y)
 	})
 }
@@ -262,12 +497,16 @@ type RecHash[A Val] struct {
 	K int
 }
 
+// the biased Hashable is the trivial one: everything equal, constant hash
 func (r RecHash[A]) Eqv(x, y A) bool {
 	r.C.comp2(r.K, string(x), string(y))
-	return string(x) == string(y)
+	return r.C.biased(r.K) || string(x) == string(y)
 }
 func (r RecHash[A]) Hash(x A) uint32 {
 	r.C.comp1(r.K, string(x))
+	if r.C.biased(r.K) {
+		return uint32(7 * r.K)
+	}
 	return uint32(vrt.Hash64(fmt.Sprintf("%d#%s", r.K, string(x))))
 }
 
@@ -276,9 +515,10 @@ type RecMon[A Val] struct {
 	K int
 }
 
-func (r RecMon[A]) Empty() A { return A(fmt.Sprintf("e%d", r.K)) }
+func (r RecMon[A]) Empty() A { return A(r.C.Emp(r.K)) }
 func (r RecMon[A]) Combine(x, y A) A {
-	return A(fmt.Sprintf("c%d(%s,%s)", r.K, string(x), string(y)))
+	r.C.comp2(r.K, string(x), string(y))
+	return A(r.C.cmb(r.K, string(x), string(y)))
 }
 
 type RecClone[A Val] struct {
@@ -288,32 +528,87 @@ type RecClone[A Val] struct {
 
 func (r RecClone[A]) Clone(x A) A {
 	r.C.comp1(r.K, string(x))
-	return A(fmt.Sprintf("k%d(%s)", r.K, string(x)))
+	return A(r.C.cln(r.K, string(x)))
 }
 
-// expected component results, by position
-func (c *Cx) Emp(k int) string { return fmt.Sprintf("e%d", k) }
-func (c *Cx) Cmb(k int) string { return fmt.Sprintf("c%d(%s,%s)", k, c.V[k], c.U[k]) }
-func (c *Cx) Cln(k int) string { return fmt.Sprintf("k%d(%s)", k, c.V[k]) }
+// tag names the component instance of position k of this construction: e/c/k<k> in
+// generation 1, E/C/K<k> in generation 2, with a ! when it is the differently-behaving one.
+func (c *Cx) tag(lower, upper string, k int) string {
+	t := lower
+	if c.Gen == 2 {
+		t = upper
+	}
+	if c.biased(k) {
+		c.decided(k)
+		return fmt.Sprintf("%s%d!", t, k)
+	}
+	return fmt.Sprintf("%s%d", t, k)
+}
 
-// AllEq / LexLess: the reference for Eq / Ord of an n-tuple, written as plain loops.
-func AllEq(a, b []string) bool {
+func (c *Cx) cmb(k int, x, y string) string {
+	if c.biased(k) {
+		return fmt.Sprintf("%s(%s;%s)", c.tag("c", "C", k), y, x) // the biased monoid combines the other way round
+	}
+	return fmt.Sprintf("%s(%s,%s)", c.tag("c", "C", k), x, y)
+}
+func (c *Cx) cln(k int, x string) string { return fmt.Sprintf("%s(%s)", c.tag("k", "K", k), x) }
+
+// expected component results, by position
+func (c *Cx) Emp(k int) string { return c.tag("e", "E", k) }
+func (c *Cx) Cmb(k int) string { return c.cmb(k, c.V[k], c.U[k]) }
+func (c *Cx) Cln(k int) string { return c.cln(k, c.V[k]) }
+
+// decidedSeen: (member, position) pairs at which, in this process, the differently-behaving
+// component instance of generation 2 decided an observed result. All cases of a member run
+// in one worker process, so the per-family counter is a count of distinct pairs.
+var decidedSeen = map[string]bool{}
+
+func (c *Cx) decided(k int) {
+	c.W.Add("identity.bias_decided."+c.Family, 1)
+	key := fmt.Sprintf("%s/%s/%d", c.Variant, c.Member, k)
+	if !decidedSeen[key] {
+		decidedSeen[key] = true
+		key = fmt.Sprintf("%s/%d", c.Member, k)
+		if !decidedSeen[key] {
+			decidedSeen[key] = true
+			c.W.Add("identity.member_positions_decided."+c.Family, 1)
+		}
+	}
+}
+
+// AllEq / LexLess: the reference for Eq / Ord of an n-tuple built from THIS construction's
+// component instances, written as plain loops (a biased position is trivially equal / is
+// ordered the other way round).
+func (c *Cx) AllEq(a, b []string) bool {
 	for i := range a {
 		if a[i] != b[i] {
+			if c.biased(i + 1) {
+				continue
+			}
 			return false
+		}
+	}
+	if c.Gen == 2 {
+		for i := range a {
+			if a[i] != b[i] {
+				c.decided(i + 1) // equal only because the trivial instances sit at the differing positions
+				break
+			}
 		}
 	}
 	return true
 }
 
-func LexLess(a, b []string) bool {
+func (c *Cx) LexLess(a, b []string) bool {
 	for i := range a {
-		if a[i] < b[i] {
-			return true
+		if a[i] == b[i] {
+			continue
 		}
-		if a[i] > b[i] {
-			return false
+		if c.biased(i + 1) {
+			c.decided(i + 1)
+			return a[i] > b[i]
 		}
+		return a[i] < b[i]
 	}
 	return false
 }
@@ -329,29 +624,35 @@ func sign(i int) int {
 }
 
 // OrdObs compares what an Ord[TupleN] answers with the lexicographic reference.
-func (c *Cx) OrdObs(less12, less21, eqv12 func() bool, cmp12 func() int, lessEq12 func() bool, vs, us []string) {
+func (c *Cx) OrdObs(less12, less21, eqv12 func() bool, cmp12 func() int, lessEq12 func() bool, cmpSame func() int, vs, us []string) {
 	var b bool
 	var i int
 	if c.obs(func() { b = less12() }) {
-		c.Eqb("Less", b, LexLess(vs, us))
+		c.Eqb("Less", b, c.LexLess(vs, us))
 	}
 	if c.obs(func() { b = less21() }) {
-		c.Eqb("Less-flipped", b, LexLess(us, vs))
+		c.Eqb("Less-flipped", b, c.LexLess(us, vs))
 	}
 	if c.obs(func() { b = eqv12() }) {
-		c.Eqb("Eqv", b, AllEq(vs, us))
+		c.Eqb("Eqv", b, !c.LexLess(vs, us) && !c.LexLess(us, vs))
 	}
 	if c.obs(func() { i = cmp12() }) {
 		want := 0
-		if LexLess(vs, us) {
+		if c.LexLess(vs, us) {
 			want = -1
-		} else if LexLess(us, vs) {
+		} else if c.LexLess(us, vs) {
 			want = 1
 		}
 		c.Eqs("Compare", fmt.Sprint(sign(i)), fmt.Sprint(want))
 	}
 	if c.obs(func() { b = lessEq12() }) {
-		c.Eqb("LessEq", b, !LexLess(us, vs))
+		c.Eqb("LessEq", b, !c.LexLess(us, vs))
+	}
+	// equal operands: the answer needs every component instance of THIS construction
+	c.ResetComps()
+	if c.obs(func() { i = cmpSame() }) {
+		c.Eqs("Compare-same", fmt.Sprint(sign(i)), "0")
+		c.SawAll("Compare", len(vs))
 	}
 }
 
@@ -361,10 +662,22 @@ func (c *Cx) Routed() {
 		c.Fail("component-routing", c.routeErr)
 		c.routeErr = ""
 	}
+	c.flushForeign()
 }
 
-// SawAll checks that every one of the n component instances was consulted (nothing dropped).
+// SawAll checks that every one of the n component instances given to THIS construction was
+// consulted since ResetComps (nothing dropped; none consulted at all = the instance is not
+// built from the components it was given).
 func (c *Cx) SawAll(what string, n int) {
+	none := true
+	for k := 1; k <= n; k++ {
+		none = none && !c.seen[k]
+	}
+	if none && n >= 1 {
+		c.flushForeign()
+		c.Fail("instance-identity", fmt.Sprintf("%s consulted none of the %d component instances that were given to this construction", what, n))
+		return
+	}
 	for k := 1; k <= n; k++ {
 		if !c.seen[k] {
 			c.Fail(what+"-drops-component", fmt.Sprintf("%s never consulted the instance of position %d", what, k))
@@ -376,6 +689,9 @@ func (c *Cx) SawAll(what string, n int) {
 func (c *Cx) ResetComps() { c.seen = [MaxPos + 1]bool{} }
 
 // ---- observers of the monads ------------------------------------------------------------
+
+// UnitS renders the (empty) result of unit.FuncN.
+func UnitS(fp.Unit) string { return "" }
 
 func OptS(o fp.Option[Res]) string {
 	if o.IsDefined() {
